@@ -12,6 +12,11 @@ CHECKS = {
   text="1 500 generated files per quick run (16x6 000 thorough) from an independent PBF encoder, neighbouring blocks deliberately differing in optional parts; every object and the header compared field for field with the format's formulas. Sampled, not exhaustive: bounded block counts (<=6) and sizes (<=9 000 elements).",
   note=PBF_NOTE,
   technique="property-based testing (rapid): independent encoder as generator, format-formula oracle, correlated 'flip' generation of neighbouring blocks"),
+ "C06": dict(
+  level="fault_enumeration",
+  text="Per generated file EVERY byte offset is cut and every enumerated damage class is applied at the header block and first/last data block (thorough: every block), each scan isolated in a child process with a hang watchdog; ~6 600 scans per quick run. The files themselves (10 small ones quick, 120 thorough) are sampled; thorough adds native fuzzing of the byte stream for crash/hang only.",
+  note=PBF_NOTE + " A zlib bit flip counts as damage only if Go's compress/zlib rejects the stream or inflates it differently. One listed known finding (zlib stream end not verified by the czlib dependency) is excluded by construction and witnessed deterministically.",
+  technique="fault enumeration driven by property-based generation (rapid): exhaustive cut points + damage-class x position matrix per file, prefix/err oracle from the model, child-process isolation; native go fuzzing as robustness supplement"),
  "C08": dict(
   level="exploration",
   text="1 500 generated files x skip flags x 9 pure predicate kinds per type x decoder counts per quick run; oracle = model sequence filtered in the harness, deep snapshots at receipt vs end, what the filter saw vs what was returned, multiset of elements shown to filters. Sampled.",
